@@ -33,6 +33,7 @@ import random as _random
 from hypothesis import strategies as st
 
 from vlib import deppair as dp
+from vlib import udpair
 from vlib import vsched
 from vlib.engine import Leg, Violation, derive_seed, unexpected
 
@@ -118,11 +119,11 @@ def fault_class(base, step):
 
 
 # ----------------------------------------------------------------- oracle
-def judge(case, ctx, clean=False):
+def judge(case, ctx, clean=False, medium=None):
     cfg, reqs, ress, script = materialise(case)
     base = cfg_class(cfg)
     ctx.set_class(base)
-    r = dp.converse(cfg, reqs, ress, script)
+    r = dp.converse(cfg, reqs, ress, script, medium=medium)
     frames = r.frames
     steps = dp.steps(frames)
     faulted = [f for f in frames if f["fate"] != "deliver"]
@@ -148,6 +149,8 @@ def judge(case, ctx, clean=False):
               "i_err": repr(r.i_err[1]) if r.i_err else None,
               "t_err": repr(r.t_err[1]) if r.t_err else None,
               "claim": claim, "vtime": round(r.vtime, 3),
+              # real udp driver: the longest datagram taken from a socket
+              "largest_datagram": getattr(r.air, "largest", None),
               "wire": " ".join("%s%s%s" % (
                   ">" if f["dir"] == "I>T" else "<", f["kind"],
                   {"deliver": "", "lose": "!L", "corrupt": "!C"}[f["fate"]])
@@ -158,7 +161,12 @@ def judge(case, ctx, clean=False):
         # (b) only CommunicationError may come out of exchange()
         for side, exc in (("initiator", r.i_exc), ("target", r.t_exc)):
             if exc is not None:
-                flag(ctx, base, unexpected(
+                # the first DEP_REQ is still received by the driver's listen:
+                # an exception before Target.activate() returned has its own
+                # class
+                cls = base if side == "initiator" or r.t_act is not None \
+                    else "target-activate"
+                flag(ctx, cls, unexpected(
                     exc, detail="%s thread, %d faults" % (side,
                                                           len(faulted))))
         if r.timed_out:
@@ -422,6 +430,61 @@ def enum_pairs_sample(tier, seed):
             yield dict(c, script=p)
 
 
+# ------------------------------------------------- the real udp driver legs
+def run_udp(case, ctx):
+    judge(case, ctx, clean=not case["script"], medium=udpair.frontends)
+
+
+def udp_configs(tier, seed):
+    """every (lri, lrt) x {no DID, DID} (x 3 seeded variants in the thorough
+    tier): sizes around multiples of the MIU in both directions"""
+    rng = _random.Random(derive_seed(seed, PROPERTY, "udp"))
+    edges = [[0, 1], [1, -1], [1, 0], [1, 1], [2, 0], [2, 1], [3, -1],
+             [1, -2], [2, -1]]
+    out = []
+    for _ in range(1 if tier == "quick" else 3):
+        for lri in range(4):
+            for lrt in range(4):
+                for did in (None, rng.randrange(1, 15)):
+                    cfg = dict(DEFAULT_CFG)
+                    cfg.update(lri=lri, lrt=lrt, did=did,
+                               brs=rng.randrange(3),
+                               rwt=rng.choice([0, 3, 8, 8, 11, 14]),
+                               nad=rng.choice([None, None, None,
+                                               rng.randrange(256)]),
+                               gbi=bytes(rng.randrange(256) for _ in
+                                         range(rng.choice([0, 0, 20, 48]))),
+                               gbt=bytes(rng.randrange(256) for _ in
+                                         range(rng.choice([0, 0, 20, 47]))),
+                               seed=rng.randrange(0x10000),
+                               release=rng.random() < 0.7)
+                    n = rng.randrange(5, 7)
+                    out.append({"cfg": cfg,
+                                "req": [list(x) for x in rng.sample(edges, n)],
+                                "res": [list(x) for x in rng.sample(edges, n)]})
+    return out
+
+
+def enum_udp(tier, seed):
+    for c in udp_configs(tier, seed):
+        cfg, reqs, ress, _ = materialise(dict(c, script=[]))
+        r = dp.converse(cfg, reqs, ress, {}, medium=udpair.frontends)
+        n = min(NMAX, len([f for f in r.frames if f["code"] == "DEP"]))
+        yield dict(c, script=[])
+        for i in range(n):
+            for k in KINDS:
+                yield dict(c, script=[[i, k]])
+
+
+@st.composite
+def st_udp_case(draw):
+    case = draw(st_case())
+    # the driver pair is activated at 106A (Initiator.activate searches the
+    # target itself), higher bit rates are reached through PSL (brs)
+    case["cfg"]["start"] = "106A"
+    return case
+
+
 CONFIGS = ("8 hand-written + seeded configurations (40 quick / 300 thorough: "
            "brs, start 106A/212F/424F, lri, lrt, rwt, DID on every fifth, "
            "NAD, general bytes, 5-7 exchanges with sizes around multiples of "
@@ -457,4 +520,26 @@ LEGS = [
         rule="fault-free conversations over the same configuration space "
              "(complete delivery, LR, framing); non-trivial = at least 5 "
              "protocol steps (PNI wrap) and chaining in some direction."),
+    Leg("udp", run=run_udp, enum=enum_udp, exhaustive=True,
+        shards_quick=8, shards_thorough=16,
+        rule="the same conversations carried by the library's REAL udp "
+             "driver on both sides (two ContactlessFrontend('udp:...') whose "
+             "socket/select modules are an in-process datagram medium: "
+             "ephemeral ports, bind, recvfrom(bufsize) cuts the datagram to "
+             "bufsize like the kernel; activation at 106A through the "
+             "driver's sense/listen, PSL by brs): every (lri, lrt) in "
+             "{64,128,192,254}^2 x {no DID, DID} (x 3 in the thorough tier) "
+             "with seeded brs/rwt/NAD/general bytes and 5-6 exchanges whose "
+             "sizes are distinct members of k*MIU+{-2..1}, k <= 3, in each "
+             "direction x {fault-free run, every single fault in {lose = "
+             "datagram dropped, corrupt = datagram with a damaged hex "
+             "string} over the first min(24, length) DEP frame slots}; "
+             + NT_RULE + " The fault-free runs count as non-trivial when "
+             "they chain and pass the PNI wrap."),
+    Leg("udp-random", run=run_udp, gen=lambda tier: st_udp_case(), quick=500,
+        thorough=5000, shards_quick=4, shards_thorough=8, nt_floor=0.3,
+        rule="as leg random (configurations x payload size lists x sparse / "
+             "dense lose/corrupt scripts) over the real udp driver pair, "
+             "start fixed to 106A; same non-trivial rule (fault-free cases: "
+             ">= 5 steps and chaining)."),
 ]
